@@ -667,6 +667,10 @@ def eval_roundtrip(ctx, cases):
 # ------------------------------------------------------------------ end to end through a v4 data set
 
 def gen_v4(rng):
+    if rng.random() < 0.35:
+        # a self-calibration (L2) stream next to the L1 stream, with its OWN antenna / polarisation ordering
+        return dict(kind='v4', seed=rng.randrange(2 ** 31), T=rng.randint(3, 6), F=rng.randint(2, 6),
+                    products=rng.choice(['l2.GPHASE', 'l1.G,l2.GPHASE', 'l2.GPHASE,l1.K']), nan_gain=False, l2=True)
     return dict(kind='v4', seed=rng.randrange(2 ** 31), T=rng.randint(3, 6), F=rng.randint(2, 6),
                 products=rng.choice(['l1.G', 'l1.K,l1.G', 'l1.B,l1.G', 'l1.K,l1.B,l1.G', 'G', 'l1']),
                 nan_gain=rng.random() < 0.6)
@@ -695,8 +699,19 @@ def run_v4(case):
              'cal_n_chans': F}
     sensors = {'cal_product_K': [(-0.5, delays)], 'cal_product_B': [(-0.4, bp)],
                'cal_product_G': [(float(t), g[t]) for t in range(T)]}
+    archived = None
+    if case.get('l2'):
+        l2 = 'continuum_tgt_selfcal'
+        l2_ants, l2_pols = ants[::-1], pols[::-1]
+        gp = np.exp(2j * np.pi * rs.uniform(0, 1, (T, F) + pol_ant)).astype(np.complex64)    # [t, chan, l2 pol, l2 ant]
+        attrs.update({'cal_stream_type': 'sdp.cal', 'continuum_stream_type': 'sdp.continuum_image',
+                      'continuum_targets': {v4synth.TARGETS[0]: 'tgt'},
+                      f'{l2}_antlist': l2_ants, f'{l2}_pol_ordering': l2_pols, f'{l2}_center_freq': center,
+                      f'{l2}_bandwidth': bandwidth, f'{l2}_n_chans': F})
+        sensors[f'{l2}_product_GPHASE'] = [(float(t), gp[t]) for t in range(T)]
+        archived = ['cal', 'continuum']
     syn = v4synth.make_v4(rng, T=T, F=F, n_ants=n_ants, extra_attrs=attrs, extra_sensors=sensors,
-                          center_freq=center, bandwidth=bandwidth, pols='hv',
+                          center_freq=center, bandwidth=bandwidth, pols='hv', archived_streams=archived,
                           open_kwargs={'applycal': case['products']})
     d = syn.dataset
     with dask.config.set(scheduler='synchronous'):
@@ -722,6 +737,9 @@ def run_v4(case):
         if 'l1.G' in applied:
             with np.errstate(all='ignore'):
                 c *= (1.0 / g[:, p, a].astype(np.complex128))[:, np.newaxis]
+        if 'l2.GPHASE' in applied:
+            a2, p2 = l2_ants.index(inp[:-1]), l2_pols.index(inp[-1])
+            c *= 1.0 / gp[:, :, p2, a2].astype(np.complex128)
         return c
     for k, (a, b) in enumerate(cps):
         factor[:, :, k] = per_input(a) * np.conj(per_input(b))
